@@ -433,7 +433,14 @@ func runC03(c *Ctx) {
 	checkExtKeyAddressesRegisteredForUnlock(c, "C03-R3")
 	checkNoKeyUseAfterZero(c, "C03-R1")
 	checkAccountSchemaOverrideOnBothBranches(c, "C03-R5")
-	checkInvalidationAlwaysEvicts(c, "C03-R4")             // an account object outlives its row only until it is invalidated
+	checkInvalidationAlwaysEvicts(c, "C03-R4") // an account object outlives its row only until it is invalidated
+	// an imported key keeps its scope's address format when its row is loaded again (C08-R3's sibling-agreement rule)
+	checkImportPathsAgreeOnSchemaField(c, "C03-R5")
+	// an import that runs while the manager is locked seals the key under the wiped (all-zero) crypto key: it is handed
+	// back for as long as the object lives and is lost at the next lock (C05-R1's gating rule, for the import paths)
+	c.Borrow(func(c2 *Ctx) { checkLockGating(c2, "C03-R3") }, "C03-R3", "C03-R3", func(k string) bool {
+		return strings.HasPrefix(k, "no-private-use-while-locked:") && strings.Contains(k, "Import")
+	})
 }
 
 func isExtractOf(v ssa.Value, call *ssa.Call, idx int) bool {
